@@ -46,6 +46,7 @@ fn property_on_step(prop: &str, before: &Url, op: &Op, after: &Url, status: &str
         "C03" => prop_c03(after, Some(before)).or_else(|| if prop_c02(after).is_none() { prop_c03_roundtrips(after) } else { None }),
         "C05" => prop_c05(after),
         "C06" => prop_c06(before, op, after, status),
+        "C15" => prop_c15_url(before, op, after),
         _ => None,
     }
 }
@@ -307,8 +308,7 @@ fn run_known(args: &Args) -> Report {
 fn run_replay(args: &Args) -> Report {
     let dbg = if cfg!(debug_assertions) { "1" } else { "0" };
     let prop = args.extra.first().cloned().unwrap_or_else(|| "C02".into());
-    let txt = std::fs::read_to_string(&args.file).unwrap_or_default();
-    let req = txt.split("\"request\":").nth(1).and_then(|s| s.split('"').nth(1)).unwrap_or("").to_string();
+    let req = replay_request(&args.file);
     let mut cx = Ctx { drv: Driver::spawn(&args.driver), rep: Report::new(), dbg, prop: prop.clone(), search: false };
     if req.is_empty() {
         cx.rep.notes.push("replay file has no request (no-failing-input-found replay): nothing to re-run".into());
@@ -432,11 +432,69 @@ fn directed_search(rep: &mut Report) {
     rep.failures.sort_by_key(|(c, _)| c.len());
 }
 
+/// HostOK sampling (corr mode): the whole-history alphabet theorems of C05 are relative to `HostOK` - the text
+/// that the host parser hands to the serialization is printable ASCII, and for special schemes lower-case and
+/// free of forbidden host code points.  The host functions are answered by the real crate in the
+/// correspondence, so model and implementation cannot disagree about them; this stream evaluates the premise
+/// itself on the implementation for a structured host pool (every ASCII value raw, percent-encoded and as its
+/// fullwidth compatibility form, alone, next to a non-ASCII letter on either side, and inside an xn-- label)
+/// through the parser and through set_host.  A premise violation is reported as a differing request
+/// ("hist <url>"), so that the search phase replays it and reports the failing URL.
+fn hostok_stream(rep: &mut Report) {
+    let mut hosts: Vec<String> = Vec::new();
+    for c in 0u8..=0x7f {
+        let raw = (c as char).to_string();
+        let pct = format!("%{:02X}", c);
+        let mut forms = vec![raw, pct];
+        if (0x21..=0x7e).contains(&c) {
+            forms.push(char::from_u32(0xFF00 + (c as u32 - 0x20)).unwrap().to_string());
+        }
+        for f in &forms {
+            hosts.push(format!("a{}b", f));
+            hosts.push(format!("\u{e9}{}", f));
+            hosts.push(format!("{}\u{e9}", f));
+            hosts.push(format!("caf\u{e9}{}.example", f));
+            hosts.push(format!("x.{}\u{4e2d}a", f));
+            hosts.push(format!("xn--caf{}-dpa.example", f));
+            hosts.push(format!("XN--{}-1ga", f));
+        }
+    }
+    let file = Url::parse("file:///p").unwrap();
+    let http = Url::parse("http://h/p").unwrap();
+    let mut n = 0u64;
+    for h in &hosts {
+        for pre in ["http://", "ws://u@", "file://"] {
+            let s = format!("{}{}/p", pre, h);
+            n += 1;
+            if let Ok(u) = Url::parse(&s) {
+                let imp = prop_c05(&u).unwrap_or_else(|| "HostOK".into());
+                rep.case("hostok", &format!("hist {}", hexs(&s)), "HostOK", &imp, true, if imp == "HostOK" { "hostok:ok" } else { "hostok:violated" });
+            }
+        }
+        for start in [&file, &http] {
+            let mut u = start.clone();
+            n += 1;
+            if u.set_host(Some(h)).is_ok() {
+                let imp = prop_c05(&u).unwrap_or_else(|| "HostOK".into());
+                let op = Op::SetHost(Some(h.clone()));
+                rep.case("hostok", &hist_case(start.as_str(), std::slice::from_ref(&op)), "HostOK", &imp, true, if imp == "HostOK" { "hostok:ok" } else { "hostok:violated" });
+            }
+        }
+    }
+    rep.exhaustive.push(format!("hostok: {} hosts ({} parse / set_host attempts): HostOK premise evaluated on the implementation", hosts.len(), n));
+}
+
 fn main() {
     quiet_panics();
     let args = parse_args();
     let rep = match args.mode.as_str() {
-        "corr" => run_streams(&args, false),
+        "corr" => {
+            let mut rep = run_streams(&args, false);
+            if args.extra.first().map(|s| s.as_str()) == Some("C05") {
+                hostok_stream(&mut rep);
+            }
+            rep
+        }
         "search" => {
             let mut rep = run_streams(&args, true);
             if rep.failures.is_empty() {
